@@ -21,9 +21,16 @@ fn main() {
     let uif2 = sif2.universe();
     let capif = if quick { 400_000 } else { u64::MAX };
     ctx.run_slice(Slice::new(format!("long-interfaces-one-edge[{} first {} of {}]", sif2.name(), capif.min(uif2.count()), uif2.count()), uif2.count().min(capif), |i, loc| check::<B>(&uif2.get_open(i), loc)));
+    // many hyperedges of arity <= 1 on <= 3 nodes (5; thorough also 6): sparse dependencies, idle hyperedges
+    for e in if quick { vec![5usize] } else { vec![5, 6] } {
+        let sp = Spec { e_min: e, ..Spec::hyper(3, e, 1, 1, 1) };
+        let up = sp.universe();
+        ctx.run_slice(Slice::new(format!("predicates-many-hyperedges[{}]", sp.name()), up.count(), move |i, loc| check::<B>(&up.get_open(i), loc)));
+    }
     let kmax = if quick { 6 } else { 8 };
     let mut st = ohmc::props::structured::shapes(kmax);
     st.extend(ohmc::props::structured::programs(kmax));
+    st.extend(ohmc::props::structured::shuffled_dags());
     st.extend(ohmc::props::structured::degree_probes(if quick { 9 } else { 17 }));
     ctx.run_slice(Slice::new(format!("structured[sizes 1..{}, degree probes up to 9-17: {} diagrams]", kmax, st.len()), st.len() as u64, |i, loc| check::<B>(&st[i as usize].1, loc)));
     // the same families at large size parameters
